@@ -389,14 +389,44 @@ def encode(doc: dict, fmt: str):
         raise NotEquivalent("no YAML text of this document is read back as the document by the stock loader")
     if fmt == "dict":
         return doc, "dict"
-    if fmt == "csv":
+    if fmt.startswith("csv"):
+        # csv[+long1|+long2|+trail|+short][+quoted][+crlf][+ragged_later][+file]: the shape of the rows below the header
+        flags = set(fmt.split("+")[1:])
         buf = io.StringIO()
-        w = csv.writer(buf, lineterminator="\n")
+        w = csv.writer(buf, lineterminator="\r\n" if "crlf" in flags else "\n", quoting=csv.QUOTE_ALL if "quoted" in flags else csv.QUOTE_MINIMAL)
+        row = list(doc.values())
+        if "long1" in flags:      # one surplus cell with content
+            row = row + ["surplus"]
+        elif "long2" in flags:    # two surplus cells
+            row = row + ["s1", ""]
+        elif "short" in flags and len(row) > 1:   # the last cell is missing
+            row = row[:-1]
         w.writerow(list(doc))
-        w.writerow(list(doc.values()))
-        w.writerow(["later row"] * len(doc))
-        return buf.getvalue(), "csv"
+        w.writerow(row)
+        later = ["later row"] * len(doc)
+        if "ragged_later" in flags:
+            later = later[:-1] if len(later) > 1 else later + ["x"]
+        w.writerow(later)
+        text = buf.getvalue()
+        if "trail" in flags:      # an export whose data rows all end with the delimiter
+            head, *rest = text.split("\n") if "crlf" not in flags else text.split("\r\n")
+            nl = "\r\n" if "crlf" in flags else "\n"
+            text = nl.join([head, *[r + "," if r else r for r in rest]])
+        if "file" in flags:
+            d = tempfile.mkdtemp(dir=e2e.scratch_root())
+            pth = Path(d) / "export.csv"
+            pth.write_text(text, encoding="utf-8", newline="")
+            return pth, "csv"
+        return text, "csv"
     raise ValueError(fmt)
+
+
+def csv_pair(doc: dict, fmt: str) -> dict:
+    """the header/row pair of a CSV case: header names paired with the cells below them (a surplus cell has no header
+    name and belongs to no column; a missing cell leaves its column out of the pair)"""
+    if fmt.startswith("csv") and "short" in fmt.split("+") and len(doc) > 1:
+        return dict(list(doc.items())[:-1])
+    return doc
 
 
 def keys_differ(doc, dumped, path: str = "$") -> str | None:
@@ -426,6 +456,9 @@ def evaluate(doc: dict, fmt: str, kind: str) -> tuple[str, str] | None:
     except NotEquivalent:
         return None
     res = run_raw(src, ift, kind)
+    if isinstance(src, Path):
+        shutil.rmtree(src.parent, ignore_errors=True)
+    doc = csv_pair(doc, fmt)
     if res.hang:
         return None  # C01's business
     if not res.ok:
@@ -515,7 +548,7 @@ def shrink(doc: dict, fmt: str, kind: str, mechanism: str, budget_s: float = 8.0
                     yield v[i] if isinstance(v[i], list) else v[:i] + [1] + v[i + 1:]
                 for sub in variants(v[i], False):
                     yield v[:i] + [sub] + v[i + 1:]
-        elif fmt != "csv" and v not in (1, None):
+        elif not fmt.startswith("csv") and v not in (1, None):
             yield 1
 
     changed = True
@@ -566,7 +599,8 @@ def oracle_case(ck: Check, camp, doc: dict, fmt: str, kind: str) -> None:
     camp.hit(f"format:{fmt}")
     camp.hit(f"kind:{kind}")
     r = evaluate(doc, fmt, kind)
-    ACCEPT_LOG.append((doc, kind, None if r is None else r[0]))
+    if csv_pair(doc, fmt) is doc:   # a short CSV row is not the sample the generator inferred from (it pairs the whole header)
+        ACCEPT_LOG.append((doc, kind, None if r is None else r[0]))
     if r is None:
         camp.hit("accepted_and_keys_equal")
         if len(camp.samples) < 3 and 30 < len(json.dumps(doc)) < 240:
@@ -581,7 +615,8 @@ def oracle_case(ck: Check, camp, doc: dict, fmt: str, kind: str) -> None:
         small = doc
     trig = trigger_of(small)
     camp.hit(f"fail:{mechanism}:{trig}")
-    ck.fail({"oracle": "sample_accepted", "format": "csv" if fmt == "csv" else "document", "kind": kind, "mechanism": mechanism, "trigger": trig,
+    ck.fail({"oracle": "sample_accepted", "format": "csv" if fmt.startswith("csv") else "document", "csv_shape": fmt if fmt.startswith("csv") else "n/a",
+             "csv_short_row": fmt.startswith("csv") and "short" in fmt.split("+"), "kind": kind, "mechanism": mechanism, "trigger": trig,
              "cause": cause_of(mechanism, observed), "has_all_null_array": has_all_null_array(small),
              "has_typename_key": any(key_class(k) == "typename" for k in all_keys(small)),
              "has_astral_key": any(key_class(k) == "astral" for k in all_keys(small)),
@@ -629,10 +664,78 @@ def campaign_csv(ck: Check, n: int) -> None:
         kind = "pydantic_v2.BaseModel" if i % 2 == 0 else "pydantic.BaseModel"
         if kind == "pydantic.BaseModel":
             doc = without_v1_root_key(doc)
-        camp.distinct.add(json.dumps(doc, sort_keys=True))
+        # shape of the rows: rectangular; first row longer than the header (surplus cells, trailing delimiter on every
+        # row); shorter; all cells quoted; CRLF line ends; later rows ragged; handed over as a file
+        shape = ["", "", "+long1", "+long2", "+trail", "+short", "+trail", "+long1"][i % 8]
+        extra = "".join(f for f, p in (("+quoted", 4), ("+crlf", 5), ("+ragged_later", 4), ("+file", 3)) if rng.chance(1, p))
+        fmt = "csv" + shape + extra
+        camp.distinct.add(json.dumps(doc, sort_keys=True) + fmt)
         for k in doc:
             camp.hit("key:" + key_class(k))
-        oracle_case(ck, camp, doc, "csv", kind)
+        for f in fmt.split("+")[1:] or ["rectangular"]:
+            camp.hit("csv:" + f)
+        oracle_case(ck, camp, doc, fmt, kind)
+    camp.wall_s = time.time() - t0
+
+
+def campaign_csv_sample(ck: Check, n: int) -> None:
+    """Model.Infer.csvSample (the header/row pairing of the CSV branch) against the schema generate() really infers"""
+    camp = ck.campaign("Model.Infer.infer ∘ csvSample vs the schema text generate() hands to JsonSchemaParser for CSV input "
+                       "(first row rectangular / shorter / longer than the header, trailing delimiters, quoted cells, text and file)")
+    t0 = time.time()
+    rng = ck.rng.fork("csv-sample")
+    cases = []
+    for i in range(n):
+        header: list[str] = []
+        while len(header) < rng.range(1, 5):
+            k = rand_key(rng)
+            if "\n" not in k and "\r" not in k and k not in header:
+                header.append(k)
+        delta = [0, 0, 1, 2, -1, 1, -2, 3][i % 8]
+        width = max(0, len(header) + delta)
+        row = [rng.choice(STRINGS + ["3", "4.5", ""]).replace("\n", " ") for _ in range(width)]
+        if not row:
+            row = [""]   # an empty line is no row at all for the csv module
+        cases.append((header, row, rng.chance(1, 4), rng.chance(1, 3)))
+    replies = ck.driver.run([f"infer.csv ({' '.join(hx(h) for h in hd)}) ({' '.join(hx(c) for c in row)})" for hd, row, _, _ in cases])
+    for (hd, row, quoted, as_file), rep in zip(cases, replies):
+        camp.evaluations += 1
+        shape = "rectangular" if len(row) == len(hd) else ("longer" if len(row) > len(hd) else "shorter")
+        camp.hit(f"row:{shape}")
+        camp.hit("quoted" if quoted else "minimal-quoting")
+        camp.hit("file" if as_file else "text")
+        sx = parse_sx(rep)
+        model = node_of_sx(sx[1]) if sx and sx[0] == "ok" else rep
+        buf = io.StringIO()
+        w = csv.writer(buf, lineterminator="\n", quoting=csv.QUOTE_ALL if quoted else csv.QUOTE_MINIMAL)
+        w.writerow(hd)
+        w.writerow(row)
+        w.writerow(["later"] * len(hd))
+        text = buf.getvalue()
+        if list(csv.reader(io.StringIO(text)))[:2] != [hd, row]:
+            camp.unmodelled += 1   # the csv module does not read this text back as (header, row)
+            continue
+        src: Any = text
+        tmpd = None
+        if as_file:
+            tmpd = tempfile.mkdtemp(dir=e2e.scratch_root())
+            src = Path(tmpd) / "in.csv"
+            src.write_text(text, encoding="utf-8", newline="")
+        try:
+            impl: Any = node_of_schema(json.loads(c16_bridge.captured_schema_text(src, "csv")))
+        except Hang:
+            camp.unmodelled += 1
+            continue
+        except Exception as e:  # noqa: BLE001
+            impl = f"no schema: {type(e).__name__}: {str(e)[:160]}"
+        finally:
+            if tmpd:
+                shutil.rmtree(tmpd, ignore_errors=True)
+        camp.distinct.add(json.dumps([hd, row]))
+        if model != impl:
+            ck.disagree(camp, {"header": hd, "row": row, "quoted": quoted, "file": as_file}, repr(model)[:400], repr(impl)[:400])
+        elif len(camp.samples) < 2 and shape != "rectangular":
+            camp.samples.append({"header": hd, "row": row, "schema": repr(impl)[:300]})
     camp.wall_s = time.time() - t0
 
 
@@ -692,7 +795,8 @@ def run(ck: Check) -> None:
     guard.campaign(ck, c16_bridge.campaign_bridge, 120 if quick else 1500, sys.modules[__name__])
     del ACCEPT_LOG[:]
     guard.campaign(ck, campaign_documents, 200 if quick else 2500)
-    guard.campaign(ck, campaign_csv, 50 if quick else 500)
+    guard.campaign(ck, campaign_csv, 80 if quick else 800)
+    guard.campaign(ck, campaign_csv_sample, 120 if quick else 1200)
     guard.campaign(ck, c16_bridge.campaign_accepts, list(ACCEPT_LOG))
     guard.campaign(ck, c16_bridge.campaign_v1_boundary, 2 if quick else 3, sys.modules[__name__])
     ck.search_hooks.append(search_keys)
